@@ -125,7 +125,7 @@ fn run(ctx: &mut Ctx) {
     let total = ctx.tier.pick(25_000, 250_000);
     let max_ops = ctx.tier.pick(5, 10);
     let strat = move || {
-        case_strategy(&["space", "space", "meta", "marks", "boundary", "abc", "clusters", "digits", "backslash", "cased"], true, W_DEFAULT, max_ops, 5, fix)
+        case_strategy(&["space", "space", "meta", "marks", "boundary", "abc", "clusters", "digits", "backslash", "cased", "metamod", "repeat"], true, W_DEFAULT, max_ops, 5, fix)
     };
     ctx.generated("gen", &strat, total, &|s, c, st| {
         count_pool(c, st);
